@@ -76,11 +76,38 @@ def cells(tier, seed):
                 out.append({'dim': 2, 'wave': w, 'mode': mode, 'J': rnd.choice([1, 2, 3, 4]),
                             'shape': [rnd.choice(BIG), rnd.choice(BIG + [16, 17])], 'N': 1, 'C': 2,
                             'noimp': True})
+    short = [w for w in waves if refs.flen(w) <= 20]
     for c in out:
         if c['mode'] == 'periodization' and rnd.random() < 0.2:
             c['spelling'] = 'per'
+        if c['dim'] == 2 and rnd.random() < 0.12:
+            # separate column / row wavelets (4-tuple form of the constructor)
+            c['wave_row'] = rnd.choice([w for w in short if w != c['wave']])
     rnd.shuffle(out)
     return out
+
+
+def wave_arg(cell, synthesis):
+    """the `wave` constructor argument: a name, or a 4-tuple (col_lo, col_hi, row_lo, row_hi)"""
+    if not cell.get('wave_row'):
+        return cell['wave']
+    wc, wr = pywt.Wavelet(cell['wave']), pywt.Wavelet(cell['wave_row'])
+    if synthesis:
+        return tuple(np.array(f) for f in (wc.rec_lo, wc.rec_hi, wr.rec_lo, wr.rec_hi))
+    return tuple(np.array(f) for f in (wc.dec_lo, wc.dec_hi, wr.dec_lo, wr.dec_hi))
+
+
+def axis_flens(cell):
+    if cell['dim'] == 1:
+        return [refs.flen(cell['wave'])]
+    return [refs.flen(cell['wave']), refs.flen(cell.get('wave_row') or cell['wave'])]
+
+
+def total_gain(cell, synthesis=False):
+    g = refs.l1gain(cell['wave'], synthesis)
+    if cell['dim'] == 2:
+        g *= refs.l1gain(cell.get('wave_row') or cell['wave'], synthesis)
+    return g ** cell['J']
 
 
 def lib_mode(cell):
@@ -94,20 +121,21 @@ def build(cell):
     with util.default_dtype(torch.float64):
         if cell['dim'] == 1:
             return pw.DWT1DForward(J=cell['J'], wave=cell['wave'], mode=lib_mode(cell))
-        return pw.DWTForward(J=cell['J'], wave=cell['wave'], mode=lib_mode(cell))
+        return pw.DWTForward(J=cell['J'], wave=wave_arg(cell, False), mode=lib_mode(cell))
 
 
 def reference(cell, x):
     if cell['dim'] == 1:
         return refs.wavedec1(x, cell['wave'], cell['mode'], cell['J'])
-    return refs.wavedec2(x, cell['wave'], cell['wave'], cell['mode'], cell['J'])
+    return refs.wavedec2(x, cell['wave'], cell.get('wave_row') or cell['wave'], cell['mode'], cell['J'])
 
 
 def judge(cell, kind, x, ok, out, L, tolc=1e-11):
     """M-REF + M-SHAPE for one observed forward call"""
     case = {'cell': cell, 'input': kind}
-    lens = [level_lengths(n, L, cell['mode'], cell['J']) for n in cell['shape']]
-    d7 = any(in_d7(l, L, cell['mode']) for l in lens)
+    Ls = axis_flens(cell)
+    lens = [level_lengths(n, La, cell['mode'], cell['J']) for n, La in zip(cell['shape'], Ls)]
+    d7 = any(in_d7(l, La, cell['mode']) for l, La in zip(lens, Ls))
     kf = KF_PER if d7 else None
     xn = util.np64(x)
     try:
@@ -118,7 +146,7 @@ def judge(cell, kind, x, ok, out, L, tolc=1e-11):
                        raised=True)
         return res(INCONCLUSIVE, case, 'M-REF', 'reference raised %r' % (e,))
     if not ok:
-        short = cell['mode'] == 'reflect' and any(n < L for l in lens for n in l)
+        short = cell['mode'] == 'reflect' and any(n < La for l, La in zip(lens, Ls) for n in l)
         if short:
             return res(HELD, case, 'M-REF', 'raised in reflect mode on a signal shorter than the filter (allowed)',
                        ratio=0.0, raised=True)
@@ -131,7 +159,7 @@ def judge(cell, kind, x, ok, out, L, tolc=1e-11):
         items = [('yl', yl, ryl)] + [('yh[%d]' % j, yh[j], ryh[j]) for j in range(cell['J'])]
     except Exception as e:
         return res(VIOLATED, case, 'M-SHAPE', 'result is not a (yl, [yh]) pyramid: %r' % (e,))
-    G = refs.l1gain(cell['wave']) ** (cell['J'] * cell['dim'])
+    G = total_gain(cell)
     tol = tolc * G * max(float(np.max(np.abs(xn))), 1e-300)
     okc, detail, ratio = util.compare_many(items, tol)
     if okc:
@@ -192,7 +220,7 @@ def reload_history(cell, seed):
     """history: use the module, overwrite its filter buffers in place with other taps of the same
     length (load_state_dict), use it again: the values must follow the new taps"""
     other = same_length_other(cell['wave'])
-    if other is None:
+    if other is None or cell.get('wave_row'):
         return []
     cell2 = dict(cell, wave=other, reloaded_from=cell['wave'])
     mod = build(cell)
